@@ -27,8 +27,15 @@ KEY_TYPES = ["INT"] * 5 + ["BIGINT", "SMALLINT", "VARCHAR", "DATE"]
 DATES = ["1999-12-31", "2000-01-01", "2000-02-29", "2001-03-04", "2010-10-10", "2024-02-29"]
 
 
+TYPE_EDGES = dict(INT=(-2147483648, 2147483647), SMALLINT=(-32768, 32767), BIGINT=(-9223372036854775808, 9223372036854775807))
+
+
 def key_value(rng, typ, wide=True):
     if typ in ("INT", "BIGINT", "SMALLINT"):
+        if rng.random() < 0.06:
+            # the ends of the key type's range (and their neighbours): a bound rewritten to `v + 1` / `v - 1` has nowhere to go there
+            lo, hi = TYPE_EDGES[typ]
+            return rng.choice([lo, hi, hi, lo + 1, hi - 1])
         return rng.randint(-20, 300) if wide else rng.randint(0, 12)
     if typ == "VARCHAR":
         return rng.choice("abcdefghij") + str(rng.randint(0, 30))
